@@ -6,6 +6,7 @@
    Explicit cases carry the tokens of the real tokenizer and the source tree. *)
 From P2 Require Import Base.Prelude Sem.Num Lex.Token Syn.Ast Syn.Parse Syn.Render Gen.Generic Gen.Instances
   Generated.ExampleCfg.
+From P2 Require Lex.Tok.
 Local Open Scope N_scope.
 
 (* ---------- enumeration ---------- *)
@@ -180,9 +181,25 @@ Inductive c19_body :=
 | CBoolExpl (flags : list bool) (toks : option (list (N * str))) (src : sexp) (on off : N)
 | CFloatEnum (flags : list bool) (n : nat) (idx : N) (on off : list Z)
 | CFloatExpl (flags : list bool) (toks : option (list (N * str))) (src : sexp) (on off : list Z)
+| CFloatText (flags : list bool) (text : list N) (tops kws : list str) (comments comfort : bool)
+             (toks : list (N * str)) (src : sexp) (on off : list Z)
 | CFloatVarEnum (unary : list str) (strict : bool) (flags : list bool) (n : nat) (idx : N) (on off : list Z)
 | CFloatVarExpl (unary : list str) (strict : bool) (flags : list bool) (toks : option (list (N * str))) (src : sexp)
                 (on off : list Z).
+
+(* CFloatText: a CFloatExpl case of example/minimal.go that also carries its source TEXT (ASCII) and the tokenizer
+   configuration Parser.Parse used (hook VerifTokenizerConfig: operator list, keywords, comment and COMFORT flag): the
+   tokenizer model (Lex/Tok.v) must deliver the tokens the real tokenizer delivered - in particular the multiplication
+   signs the comfort rule inserts into  2a ,  (a+1)(1-a) ,  2(a) ,  a b  - and src is the tree with EXPLICIT products. *)
+Definition text_tcfg (tops kws : list str) (comments comfort : bool) : P2.Lex.Tok.tcfg :=
+  P2.Lex.Tok.mkCfg tops [] kws comments comfort P2.Lex.Tok.MSimple
+    (fun c => ((65 <=? c) && (c <=? 90)) || ((97 <=? c) && (c <=? 122))) (fun c => (48 <=? c) && (c <=? 57)).
+Fixpoint tk_list_eqb (a b : list tk) : bool :=
+  match a, b with
+  | [], [] => true
+  | x :: a', y :: b' => ttype_eqb (ktyp x) (ktyp y) && str_eqb (kimg x) (kimg y) && tk_list_eqb a' b'
+  | _, _ => false
+  end.
 
 (* float observations travel as a flat list of integers, two per assignment: m and e of the value m*2^e;
    (0,1) = -0, (+-1,100001) = +-Inf, (0,100002) = NaN, (0,100003) = an error; [] = Parse/Generate failed *)
@@ -303,6 +320,12 @@ Definition c19_im (c : c19_case) : bool :=
           fl_res_ok ron (fl_obs on) && fl_res_ok roff (fl_obs off)
       | None => false
       end
+  | CFloatText flags text tops kws cm cf toks src on off =>
+      let cfg := with_flags flags float_cfg in
+      let ts := toks_of toks in
+      tk_list_eqb (map untok (P2.Lex.Tok.tokenize (text_tcfg tops kws cm cf) text)) ts &&
+      let '(ron, roff) := results2 cfg float_args ts float_assigns in
+      fl_res_ok ron (fl_obs on) && fl_res_ok roff (fl_obs off)
   | CFloatVarEnum unary strict flags n idx on off =>
       let cfg := with_flags flags (float_var_cfg unary strict) in
       let al := float_var_alpha unary in
@@ -350,6 +373,9 @@ Definition c19_is (c : c19_case) : bool :=
       let s := spec_results cfg float_args (unrank float_alpha (counts float_alpha n) (S n) n idx) float_assigns in
       fl_spec_ok s (fl_obs on) && fl_spec_ok s (fl_obs off)
   | CFloatExpl flags _ src on off =>
+      let s := spec_results (with_flags flags float_cfg) float_args src float_assigns in
+      fl_spec_ok s (fl_obs on) && fl_spec_ok s (fl_obs off)
+  | CFloatText flags _ _ _ _ _ _ src on off =>
       let s := spec_results (with_flags flags float_cfg) float_args src float_assigns in
       fl_spec_ok s (fl_obs on) && fl_spec_ok s (fl_obs off)
   | CFloatVarEnum unary strict flags n idx on off =>
